@@ -33,13 +33,17 @@ THEOREMS = [
     "bondContainer_any_use_then_reset_clean",
     "reset_clean",
     "free_list_always_clean",
+    "restore_keeps_occupancy_clean",
 ]
 
 RULE = (
     "pool: for every public update call (timestep, single_diagonal_step, single_cluster_step, single_rvb_sweep(Some(0..5)|None), "
     "timesteps(t), Qmc::{diagonal_update, loop_update, cluster_update, timestep, flip_free_bits}, FastOps::{mutate_ops, mutate_ps, "
     "get_empty_args+mutate_subsection[_ops], new_from_ops, flip_each_cluster_rng(weights), make_loop_update_with_rng(Some(k))}, "
-    "TemperingContainer::{timesteps, tempering_step, parallel_*}, swap_manager_and_state) along random call histories on Ising samplers "
+    "TemperingContainer::{timesteps, tempering_step, parallel_*}, swap_manager_and_state, and serde_json snapshot/restore of QmcIsingGraph, "
+    "SerializeQmcGraph, Qmc, FastOps, TemperingContainer, SerializeTemperingContainer - after construction, after an RVB sweep and at random "
+    "points, the history continuing on the restored object; restored occupancy must equal the one before, a fresh pool's and Generated.caps) "
+    "along random call histories on Ising samplers "
     "(14-17 lattices incl. pair, rings, isolated variables, frustrated; heat bath on/off; RVB on/off; h = 0 and h != 0; beta 1/64..8; "
     "cutoff 1..4n, so the first calls see an empty operator string) and generic samplers (single spin, Heisenberg/XXZ chains with loop "
     "updates, generic TFIM with cluster updates, ZZ-only without constant op, isolated variables, symmetry breaking term, 3-body term): "
